@@ -58,6 +58,9 @@ func (d Doc) body() []byte {
 
 func (d Doc) size() int { return len(d.body()) }
 
+// tag names the bytes of a delivery in the Coq terms: variant * 4096 + length (ModelSeal.body_len).
+func (d Doc) tag() int { return d.Var*4096 + d.size() }
+
 func seqTokens(codes []int) []seq.Token {
 	out := make([]seq.Token, 0, len(codes))
 	for _, c := range codes {
@@ -147,7 +150,7 @@ type QRes struct {
 type Obs struct {
 	Stage     string   `json:"stage"`
 	Queries   []QRes   `json:"queries"`
-	Fetch     []int    `json:"fetch"`      // per probed ID: body variant, -1 = not found, -2 = foreign bytes
+	Fetch     []int    `json:"fetch"`      // per probed ID: tag of the delivery whose bytes came back, -1 = not found, -2 = foreign bytes
 	DocsTotal []uint32 `json:"docs_total"` // Info().DocsTotal of every fraction holding documents, oldest first
 }
 
@@ -223,7 +226,7 @@ func observe(fm *fracmanager.FracManager, stage string, probes []Doc, variants m
 		}
 		for _, d := range variants[idPair{p.MID, p.RID}] {
 			if string(d.body()) == string(got[i]) {
-				v = d.Var
+				v = d.tag()
 			}
 		}
 		o.Fetch = append(o.Fetch, v)
